@@ -236,9 +236,9 @@ func (k Knobs) config(root string) *core.BlockChainConfig {
 		// production setting: the snapshot is built in the background (with SnapshotWait a
 		// generator that stops on a missing trie node makes NewBlockChain wait forever);
 		// the harness waits for quiescence instead
-		SnapshotWait:     false,
-		TxLookupLimit:    k.TxLimit,
-		TrienodeHistory:  -1,
+		SnapshotWait:    false,
+		TxLookupLimit:   k.TxLimit,
+		TrienodeHistory: -1,
 	}
 	if k.DirtyZero {
 		cfg.TrieDirtyLimit = 0
